@@ -3,14 +3,17 @@
 package main
 
 import (
+	"bufio"
 	"context"
 	"encoding/json"
 	"fmt"
+	"net"
 	"time"
 
 	"github.com/emitter-io/emitter/internal/broker"
 	"github.com/emitter-io/emitter/internal/config"
 	"github.com/emitter-io/emitter/internal/errors"
+	"github.com/emitter-io/emitter/internal/network/mqtt"
 	"github.com/emitter-io/emitter/internal/provider/contract"
 	"github.com/emitter-io/emitter/internal/provider/logging"
 	"github.com/emitter-io/emitter/internal/provider/usage"
@@ -28,6 +31,101 @@ type quiet struct{}
 func (quiet) Name() string                                  { return "quiet" }
 func (quiet) Configure(config map[string]interface{}) error { return nil }
 func (quiet) Printf(format string, v ...interface{})        {}
+
+// ---- using an extendable key as if it were a channel key ------------------------------------------------
+
+type extClient struct {
+	conn net.Conn
+	pkts chan mqtt.Message
+}
+
+func newExtClient(svc *broker.Service) *extClient {
+	a, b := net.Pipe()
+	c := &extClient{conn: a, pkts: make(chan mqtt.Message, 256)}
+	svc.VerifAttach(b)
+	go func() {
+		rd := bufio.NewReaderSize(a, 65536)
+		for {
+			m, err := mqtt.DecodePacket(rd, 1<<20)
+			if err != nil {
+				close(c.pkts)
+				return
+			}
+			c.pkts <- m
+		}
+	}()
+	return c
+}
+
+func (c *extClient) roundTrip(m mqtt.Message, ack uint8) (got []mqtt.Message) {
+	m.EncodeTo(c.conn)
+	timeout := time.After(3 * time.Second)
+	for {
+		select {
+		case p, ok := <-c.pkts:
+			if !ok {
+				return
+			}
+			got = append(got, p)
+			if p.Type() == ack {
+				return
+			}
+		case <-timeout:
+			return
+		}
+	}
+}
+
+// extUse: a client presents an extendable key (with read and write permission on a/) in a link request
+// that asks to be subscribed, in a SUBSCRIBE and in a PUBLISH.  Observed: how many subscriptions the
+// broker's index holds for that client afterwards, whether a second client's publish on a/ reached it,
+// whether its own publish reached a subscriber of a/.
+func extUse(svc *broker.Service, extKey, plainKey string, how int) (held int, received, delivered bool) {
+	before, _ := svc.VerifTrie().VerifDump()
+	_ = before
+	_, pairs0 := svc.VerifTrie().VerifDump()
+	x := newExtClient(svc)
+	x.roundTrip(&mqtt.Connect{ClientID: []byte("ext")}, mqtt.TypeOfConnack)
+	other := newExtClient(svc)
+	other.roundTrip(&mqtt.Connect{ClientID: []byte("other")}, mqtt.TypeOfConnack)
+	other.roundTrip(&mqtt.Subscribe{Header: mqtt.Header{QOS: 1}, MessageID: 1, Subscriptions: []mqtt.TopicQOSTuple{{Topic: []byte(plainKey + "/a/")}}}, mqtt.TypeOfSuback)
+	_, pairs1 := svc.VerifTrie().VerifDump()
+	switch how {
+	case 0: // link request with subscribe: true
+		req, _ := json.Marshal(map[string]interface{}{"name": "l1", "key": extKey, "channel": "a/", "subscribe": true})
+		x.roundTrip(&mqtt.Publish{Header: mqtt.Header{QOS: 1}, MessageID: 2, Topic: []byte("emitter/link/"), Payload: req}, mqtt.TypeOfPuback)
+	case 1: // plain SUBSCRIBE
+		x.roundTrip(&mqtt.Subscribe{Header: mqtt.Header{QOS: 1}, MessageID: 2, Subscriptions: []mqtt.TopicQOSTuple{{Topic: []byte(extKey + "/a/")}}}, mqtt.TypeOfSuback)
+	case 2: // link without subscription, then publish through the link
+		req, _ := json.Marshal(map[string]interface{}{"name": "l1", "key": extKey, "channel": "a/", "subscribe": false})
+		x.roundTrip(&mqtt.Publish{Header: mqtt.Header{QOS: 1}, MessageID: 2, Topic: []byte("emitter/link/"), Payload: req}, mqtt.TypeOfPuback)
+	}
+	_, pairs2 := svc.VerifTrie().VerifDump()
+	held = len(pairs2) - len(pairs1)
+	_ = pairs0
+	// a publish by the other client on a/: does the extendable-key client get it?
+	for _, m := range x.roundTrip(&mqtt.Pingreq{}, mqtt.TypeOfPingresp) {
+		_ = m
+	}
+	other.roundTrip(&mqtt.Publish{Header: mqtt.Header{QOS: 1}, MessageID: 3, Topic: []byte(plainKey + "/a/"), Payload: []byte("from-other")}, mqtt.TypeOfPuback)
+	for _, m := range x.roundTrip(&mqtt.Pingreq{}, mqtt.TypeOfPingresp) {
+		if p, ok := m.(*mqtt.Publish); ok && string(p.Payload) == "from-other" {
+			received = true
+		}
+	}
+	// a publish by the extendable-key client (directly, and through its link): does the subscriber get it?
+	x.roundTrip(&mqtt.Publish{Header: mqtt.Header{QOS: 1}, MessageID: 4, Topic: []byte(extKey + "/a/"), Payload: []byte("from-ext")}, mqtt.TypeOfPuback)
+	x.roundTrip(&mqtt.Publish{Header: mqtt.Header{QOS: 1}, MessageID: 5, Topic: []byte("l1"), Payload: []byte("from-ext")}, mqtt.TypeOfPuback)
+	for _, m := range other.roundTrip(&mqtt.Pingreq{}, mqtt.TypeOfPingresp) {
+		if p, ok := m.(*mqtt.Publish); ok && string(p.Payload) == "from-ext" {
+			delivered = true
+		}
+	}
+	x.conn.Close()
+	other.conn.Close()
+	time.Sleep(50 * time.Millisecond)
+	return
+}
 
 func main() {
 	cfg = vlib.ParseFlags()
@@ -245,7 +343,24 @@ func main() {
 				vlib.Z(t0), vlib.Str(ch), vlib.N(uint64(access)), vlib.Z(expires), outcome),
 				map[string]interface{}{"op": "CreateKey (HTTP form path)", "parent": pname, "channel": ch, "access": access, "ttl": ttl}, "createkey/"+pname, true)
 		}
+		// an extendable key is for extension only: used as a channel key it must give nothing
+		for how := 0; how < 3; how++ {
+			mk := func(perms uint8) string {
+				k := security.Key(make([]byte, 24))
+				k.SetSalt(uint16(r.Intn(65536)))
+				k.SetMaster(1)
+				k.SetContract(lic.Contract())
+				k.SetSignature(lic.Signature())
+				k.SetPermissions(perms)
+				k.SetTarget("a/")
+				e, _ := cipher.EncryptKey(k)
+				return e
+			}
+			held, received, delivered := extUse(svc, mk(security.AllowExtend|security.AllowRead|security.AllowWrite), mk(security.AllowRead|security.AllowWrite), how)
+			sh.Add(vlib.App("CExtUse", vlib.N(uint64(how)), vlib.Z(int64(held)), vlib.Bool(received), vlib.Bool(delivered)),
+				map[string]interface{}{"op": "extendable key used as a channel key", "how": []string{"link+subscribe", "subscribe", "link, publish"}[how], "subscriptions_gained": held, "received_a_message": received, "its_publish_was_delivered": delivered}, "extendable-as-channel-key", true)
+		}
 		svc.Close()
 	}
-	sh.Finish("keygen requests through the real keygen.Service under each licence version: parents master / extendable with random masks / ordinary / expired / foreign contract / wrong signature / master+other bits / undecryptable; 16 channels (valid, wildcard, '#/', missing slash, empty, 24 levels), 14 type strings (every letter, junk), 12 ttl values (0, positive, 2^31-1, negative incl. -2^31); the same parents through CreateKey directly (the HTTP form's path) with every access byte; non-trivial: all")
+	sh.Finish("keygen requests through the real keygen.Service under each licence version: parents master / extendable with random masks / ordinary / expired / foreign contract / wrong signature / master+other bits / undecryptable; 16 channels (valid, wildcard, '#/', missing slash, empty, 24 levels), 14 type strings (every letter, junk), 12 ttl values (0, positive, 2^31-1, negative incl. -2^31); an extendable key with read and write permission presented to a real broker in a link request with subscribe, a SUBSCRIBE and a PUBLISH (also through a link); the same parents through CreateKey directly (the HTTP form's path) with every access byte; non-trivial: all")
 }
